@@ -114,6 +114,13 @@ func (s *simReader) Read(p []byte) (int, error) {
 	if len(s.chunks) > 0 {
 		c := s.chunks[s.ci%len(s.chunks)]
 		s.ci++
+		if c < 0 {
+			// a read that makes no progress and reports no error: legal, discouraged, and something
+			// consumers must survive (at most a few in a row, so the consumer's own limit is not hit)
+			s.fired["(0, nil) read"]++
+			s.chunks[(s.ci-1)%len(s.chunks)] = 1
+			return 0, nil
+		}
 		if c > 0 && c < n {
 			n = c
 			s.split = true
@@ -346,7 +353,7 @@ func genChunkings(r *rand.Rand, n int) [][]int {
 	for i := 0; i < 2+r.Intn(3); i++ {
 		var c []int
 		for j := 0; j < 1+r.Intn(6); j++ {
-			c = append(c, []int{1, 2, 3, 7, 16, 61, 512, 4096, 0}[r.Intn(9)])
+			c = append(c, []int{1, 2, 3, 7, 16, 61, 512, 4096, 0, -1}[r.Intn(10)])
 		}
 		cs = append(cs, c)
 	}
@@ -390,9 +397,14 @@ func (Engine) Generate(prop string, verifSeed int64, tier string, idx int) *core
 	case k < 15:
 		sp.Kind = "nonsbom"
 		sp.F = ""
-		b = [][]byte{[]byte(`{"hello":"world","specVersion":"1.5"}`), []byte(`[1,2,3]`), []byte(`"spdxVersion"`), []byte(`{"bomFormat":"CycloneDX","specVersion":"1.6"}`),
+		cands := [][]byte{[]byte(`{"hello":"world","specVersion":"1.5"}`), []byte(`[1,2,3]`), []byte(`"spdxVersion"`), []byte(`{"bomFormat":"CycloneDX","specVersion":"1.6"}`),
 			[]byte(`{"bomFormat":"cyclonedx","specVersion":"1.4","spdxVersion":"SPDX-2.3"}`), []byte(`{"spdxVersion":"SPDX-2.4"}`), []byte(`{"spdxVersion":"SPDX-2.2"}`),
-			[]byte(`null`), []byte(`{"bomFormat":null,"specVersion":15}`), []byte("\xff\xfe\x00")}[r.Intn(10)]
+			[]byte(`null`), []byte(`{"bomFormat":null,"specVersion":15}`), []byte("\xff\xfe\x00"),
+			[]byte(" "), []byte("\n\n"), []byte("\xef\xbb\xbf"), []byte("{"), []byte("\""), []byte("1"), []byte("[]"), []byte("{}"),
+			[]byte(`{"specVersion":"1.4","bomFormat":"CycloneDX","specVersion":"1.5"}`), []byte(`{"spdxVersion":"SPDX-2.2","spdxVersion":"SPDX-2.3"}`),
+			[]byte(`{"metadata":{"bomFormat":"CycloneDX","specVersion":"1.5"}}`), []byte(`{"x":[{"spdxVersion":"SPDX-2.3"}]}`),
+			[]byte(`{"bomFormat":"CycloneDX","specVersion":" 1.5"}`), []byte(`{"spdxVersion":"spdx-2.3"}`), []byte(`{"spdxVersion":" SPDX-2.3 "}`)}
+		b = cands[r.Intn(len(cands))]
 	case k < 16:
 		sp.Kind = "tagvalue"
 		sp.F = ""
@@ -401,6 +413,33 @@ func (Engine) Generate(prop string, verifSeed int64, tier string, idx int) *core
 		sp.Kind = "empty"
 		sp.F = ""
 		b = nil
+	case k == 17 && (idx%40 == 0 || (tier == "thorough" && idx%8 == 0)):
+		// a large document whose declaration members come last
+		sp.Kind = "large-late"
+		pad := strings.Repeat("padding ", 1<<uint(14+r.Intn(4)))
+		var top map[string]json.RawMessage
+		if err := json.Unmarshal(b, &top); err == nil {
+			var buf bytes.Buffer
+			buf.WriteString(`{"zz_padding":"` + pad + `"`)
+			var keys []string
+			for k := range top {
+				keys = append(keys, k)
+			}
+			sort.Strings(keys)
+			var late []string
+			for _, k := range keys {
+				if k == "bomFormat" || k == "specVersion" || k == "spdxVersion" {
+					late = append(late, k)
+					continue
+				}
+				fmt.Fprintf(&buf, ",%q:%s", k, top[k])
+			}
+			for _, k := range late {
+				fmt.Fprintf(&buf, ",%q:%s", k, top[k])
+			}
+			buf.WriteString("}")
+			b = buf.Bytes()
+		}
 	case k < 18:
 		sp.Kind = "truncate-all"
 		small := gen.SerialisableDoc(r, "t", 1)
